@@ -14,6 +14,7 @@ import (
 	"log"
 	"os"
 	"os/exec"
+	"path/filepath"
 	"sort"
 	"sync"
 	"sync/atomic"
@@ -207,7 +208,15 @@ func shProbe(names []string) map[string]*string {
 	out := map[string]*string{}
 	for _, n := range names {
 		if p, err := exec.LookPath(n); err == nil {
+			// the program as the kernel will name it: absolute, without . and .. and symbolic links
+			// (a command word may be spelled ./tool or $DIR/../d2/tool)
 			pp := p
+			if abs, err := filepath.Abs(p); err == nil {
+				pp = abs
+				if real, err := filepath.EvalSymlinks(abs); err == nil {
+					pp = real
+				}
+			}
 			out[n] = &pp
 		} else {
 			out[n] = nil
